@@ -54,6 +54,16 @@ def io_seq(f, start=None):
                     out.append((cn, (sz or 0) * (cnt or 0), nocast(n[2][0]), ln, b))
                 elif cn in ('Write2', 'Write4', 'Write8', 'Read2', 'Read4', 'Read8'):
                     out.append((cn[:-1].lower() if False else cn, int(cn[-1]), nocast(n[2][1]), ln, b))
+                else:
+                    # a helper of the unit that reads/writes through one of its pointer parameters
+                    g = f.unit.funcs.get(cn or '')
+                    if g is not None and g is not f and g.entry is not None and len(g.blocks) <= 12:
+                        for b2, i2, l2, c2 in g.calls(('fread', 'fwrite')):
+                            if len(c2[2]) >= 4 and nocast(c2[2][0])[0] == 'p':
+                                for k, prm in enumerate(g.params):
+                                    if prm['name'] == nocast(c2[2][0])[1] and k < len(n[2]):
+                                        sz, cnt = const_val(c2[2][1]), const_val(c2[2][2])
+                                        out.append((callee_name(c2), (sz or 0) * (cnt or 0), nocast(n[2][k]), ln, b))
     return out
 
 
